@@ -522,7 +522,27 @@ pub fn boundary_packets() -> Vec<Vec<u8>> {
                 rd = vec![1, 2, 3, 4];
             }
             rr(&mut p, &ptr(at + 5), ty, 3, &rd);
-            out.push(p);
+            out.push(p.clone());
+            // SOA: both names in every combination of written out / ending with a pointer to `at` itself (whose low
+            // byte is 0x00 at multiples of 256, like the closing byte of a name written out) / to a later label
+            if ty == 6 {
+                let cut = p.len() - (2 + 10 + rd.len());
+                let forms: [Vec<u8>; 4] = [ptr(at), [vec![1, b'm'], ptr(at)].concat(), vec![1, b'w', 0], [vec![1, b'r'], ptr(at + 5)].concat()];
+                for m in 0..4 {
+                    for r in 0..4 {
+                        let mut p2 = p[..cut].to_vec();
+                        let mut rd2 = forms[m].clone();
+                        rd2.extend(&forms[r]);
+                        rd2.extend(&[0, 0, 0, 9, 0, 0, 1, 0, 0, 0, 0, 0, 0, 1, 0, 0, 0, 0, 0, 0]);
+                        rr(&mut p2, &ptr(at + 5), 6, 3, &rd2);
+                        // and a record behind it that refers to the names in the SOA data
+                        let soa_data = cut + 2 + 10;
+                        rr(&mut p2, &ptr(soa_data), 1, 4, &[4, 4, 4, 4]);
+                        p2[7] = 4;
+                        out.push(p2);
+                    }
+                }
+            }
         }
     }
     // 16-bit length fields at the ends of their range: EDNS option lengths (first and second option, inside a
